@@ -198,7 +198,7 @@ fn main() {
     run.bound("S1_scales", "-3, 0, 2, 7");
     run.bound("S1_precisions", format!("1..={}", pmax));
     let ps: Vec<u64> = (1..=pmax).collect();
-    run.par_opts("S1 small-scope grid", nmax - 1, 60, &|i| json!({"x": format!("{}e..", i + 2)}), |i| {
+    run.par_opts("S1 small-scope grid", nmax - 1, 60, &|i| json!({"x": Dec::new(i as i64 + 2, -3).show(), "p": 1, "mode": "Up", "item": "this integer at scales -3, 0, 2, 7, every precision and mode"}), |i| {
         let n = i as i64 + 2;
         let mut t = Tally::default();
         for s in [-3i128, 0, 2, 7] {
@@ -223,7 +223,7 @@ fn main() {
     let nsweep: usize = tier.pick(100, 300);
     run.bound("S1b_precisions", format!("9..={}", pmax_sweep));
     let psweep: Vec<u64> = (9..=pmax_sweep).collect();
-    run.par_opts("S1b precision sweep", nsweep, 60, &|i| json!({"x": format!("{}", i + 2)}), |i| {
+    run.par_opts("S1b precision sweep", nsweep, 60, &|i| json!({"x": Dec::new(i as i64 + 2, 0).show(), "p": 9, "mode": "Up", "item": "this integer at scales 0, 3, -2, precisions 9.."}), |i| {
         let mut t = Tally::default();
         for s in [0i128, 3, -2] {
             sweep(&run, &Dec::new(i as i64 + 2, s), &psweep, &mut t);
@@ -234,7 +234,7 @@ fn main() {
     // S2: terminating reciprocals 2^i 5^j at and just above their exact length
     let (imax, jmax): (u32, u32) = (tier.pick(66, 130), tier.pick(66, 130));
     run.bound("S2", format!("2^i 5^j, i<={}, j<={}", imax, jmax));
-    run.par_opts("S2 terminating 2^i 5^j", (imax + 1) as usize, 60, &|i| json!({"x": format!("2^{} 5^j", i)}), |i| {
+    run.par_opts("S2 terminating 2^i 5^j", (imax + 1) as usize, 60, &|i| json!({"x": Dec { n: BigInt::one() << i, s: 0 }.show(), "p": 1, "mode": "Up", "item": "2^i * 5^j for every j"}), |i| {
         let mut t = Tally::default();
         let mut d = BigInt::one() << i;
         for _j in 0..=jmax {
@@ -276,7 +276,7 @@ fn main() {
     }
     let s3p: Vec<u64> = tier.pick(vec![1, 2, 3, 5, 17], vec![1, 2, 3, 4, 5, 17, 50, 100, 150]);
     run.bound("S3_precisions", json!(s3p));
-    run.par_opts("S3 near powers of ten, bit-length alphabet", s3.len(), 60, &|i| json!({"x": s3[i].show()}), |i| {
+    run.par_opts("S3 near powers of ten, bit-length alphabet", s3.len(), 60, &|i| json!({"x": s3[i].show(), "p": 1, "mode": "Up"}), |i| {
         let mut t = Tally::default();
         sweep(&run, &s3[i], &s3p, &mut t);
         t
@@ -294,7 +294,7 @@ fn main() {
     let s4p: Vec<u64> = tier.pick(vec![1, 3, 100, 310, 400], vec![1, 2, 3, 5, 50, 100, 150, 307, 308, 309, 320, 400, 1000]);
     run.bound("S4_lengths", json!(lens));
     run.bound("S4_precisions", json!(s4p));
-    run.par_opts("S4 long operands", s4.len(), 60, &|i| json!({"x": s4[i].show()}), |i| {
+    run.par_opts("S4 long operands", s4.len(), 60, &|i| json!({"x": s4[i].show(), "p": 1, "mode": "Up"}), |i| {
         let mut t = Tally::default();
         sweep(&run, &s4[i], &s4p, &mut t);
         if i % 9 == 0 {
@@ -311,7 +311,7 @@ fn main() {
     let s4bp: Vec<u64> = tier.pick(vec![2, 16, 100], vec![1, 2, 16, 38, 100, 101]);
     run.bound("S4b_lengths", format!("1..={}", lmax));
     run.bound("S4b_precisions", json!(s4bp));
-    run.par_opts("S4b patterns at every length", s4b.len(), 60, &|i| json!({"x": s4b[i].show()}), |i| {
+    run.par_opts("S4b patterns at every length", s4b.len(), 60, &|i| json!({"x": s4b[i].show(), "p": 1, "mode": "Up"}), |i| {
         let mut t = Tally::default();
         sweep(&run, &s4b[i], &s4bp, &mut t);
         t
